@@ -238,7 +238,13 @@ def s4b_space(N: int, K: int = 2):
         cs += [BE[i] >= -1, BE[i] < K]
         for k in range(K):
             cs.append(z3.Implies(BE[i] == k, T[i][k] != -1))
-    return z3.And(cs), [T[0][0], T[0][1], BE[0]] + ([T[1][0]] if N > 1 else []), {"N": N, "K": K, "T": T, "BE": BE}
+    # a second declared back edge (recorded after the first one, whatever the order of the targets)
+    BE2 = [z3.Int(f"be2_{i}") for i in range(N)]
+    for i in range(N):
+        cs += [BE2[i] >= -1, BE2[i] < K, z3.Implies(BE[i] == -1, BE2[i] == -1), z3.Implies(BE2[i] != -1, BE2[i] != BE[i])]
+        for k in range(K):
+            cs.append(z3.Implies(BE2[i] == k, T[i][k] != -1))
+    return z3.And(cs), [T[0][0], T[0][1], BE[0]] + ([T[1][0]] if N > 1 else []), {"N": N, "K": K, "T": T, "BE": BE, "BE2": BE2}
 
 
 def realise_s4b(E, aux):
@@ -249,11 +255,14 @@ def realise_s4b(E, aux):
         row = [E.realize(aux["T"][i][k]) for k in range(K)]
         tg.append([names[t] for t in row if t != -1])
         be.append(E.realize(aux["BE"][i]))
-    return {"kind": "handbuilt", "names": names, "targets": tg, "backedge": be}
+    be2 = [E.realize(b) for b in aux["BE2"]] if "BE2" in aux else [-1] * N
+    return {"kind": "handbuilt", "names": names, "targets": tg, "backedge": be, "backedge2": be2}
 
 
 def build_s4b(desc):
     from numba_scfg.core.datastructures.scfg import SCFG
     from numba_scfg.core.datastructures.basic_block import BasicBlock
 
-    return SCFG({n: BasicBlock(n, tuple(t), (t[b],) if b >= 0 else ()) for n, t, b in zip(desc["names"], desc["targets"], desc["backedge"])})
+    b2 = desc.get("backedge2") or [-1] * len(desc["names"])
+    return SCFG({n: BasicBlock(n, tuple(t), ((t[b],) if b >= 0 else ()) + ((t[c],) if c >= 0 else ()))
+                 for n, t, b, c in zip(desc["names"], desc["targets"], desc["backedge"], b2)})
